@@ -6,16 +6,16 @@
  * intervals (`desc`), membership in the result is compared for a SYMBOLIC probe x (i.e. for every x), cardinality
  * against the sum of the interval lengths, the iterator against the k-th member of the list.
  *
- *   pre-state  T1=0 array  CARD1 (<= 4) symbolic ascending values, capacity CAP1
+ *   pre-state  (contents from five 16-value windows at the numeric edges, see harness())
+ *              T1=0 array  CARD1 (<= 4) symbolic ascending values, capacity CAP1
  *              T1=1 bitmap all zero except CARD1 (<= 2) symbolic members   (reachable: bitmap, Clear, Add)
  *              T1=2 runs   NR1 (<= 2) symbolic runs, capacity RCAP1; CCARD1 >= 0 fixes the total cardinality
  *   OP         0 observe  1 Add(a)  2 Remove(a)  3 Clear  4 Clone  5 Encode->Decode
- *              10 AddRange(a,b) longer than ARRAY_MAX on an EMPTY set (the single-run shortcut), or an empty range
- *              12 AddRange(a,b) and 13 RemoveRange(a,b) of length <= ARRAY_MAX + 4 (AddRange: except the shortcut case),
- *                 MODULAR: under CBMC the driver redirects varintBitmapAdd / varintBitmapRemove to contract_step
- *                 (Query(replace_calls=...)), which checks that the caller applies the callee to exactly a, a+1, ..., b-1,
- *                 in order, on the same and otherwise untouched object; natively (replay) the real callee runs and the
- *                 real result is compared.  In particular ranges just longer than 4096 on NON-EMPTY sets.
+ *              12 AddRange(a,b) and 13 RemoveRange(a,b): empty range, length <= 8, and for AddRange the single-run
+ *                 shortcut (longer than ARRAY_MAX on an EMPTY set).  MODULAR: under CBMC the driver redirects
+ *                 varintBitmapAdd / varintBitmapRemove to contract_*_real (Query(replace_calls=...)), which check that the
+ *                 caller applies the callee to exactly a, a+1, ..., b-1, in order, on the same and otherwise untouched
+ *                 object; natively (replay) the real callee runs and the real result is compared.
  *   not run on a bitmap-typed state (65536-step loops): iterator, ToArray, Remove of a member (bitmap -> array).
  */
 #include "vp.h"
@@ -47,39 +47,40 @@
 #define NIN 4
 #define MAXIV 8 /* intervals in a description */
 #define KMAX 6  /* members compared through the iterator / ToArray */
+#define RANGEMAX 8 /* longest range driven through the loop of Add / Remove */
 
 typedef struct desc {
     unsigned n;
-    uint32_t s[MAXIV], l[MAXIV]; /* [s, s+l), pairwise disjoint, any order, l may be 0 */
+    uint32_t s[MAXIV], e[MAXIV]; /* [s, e), pairwise disjoint, any order, possibly empty (e <= s) */
 } desc;
 static bool d_in(const desc *d, uint32_t x) {
     for (unsigned i = 0; i < MAXIV; i++)
-        if (i < d->n && x >= d->s[i] && x - d->s[i] < d->l[i])
+        if (i < d->n && x >= d->s[i] && x < d->e[i])
             return true;
     return false;
 }
 static uint32_t d_card(const desc *d) {
     uint32_t c = 0;
     for (unsigned i = 0; i < MAXIV; i++)
-        if (i < d->n)
-            c += d->l[i];
+        if (i < d->n && d->e[i] > d->s[i])
+            c += d->e[i] - d->s[i];
     return c;
 }
-static void d_append(desc *d, uint32_t s, uint32_t l) {
+static void d_append(desc *d, uint32_t s, uint32_t e) {
     d->s[d->n] = s;
-    d->l[d->n] = l;
+    d->e[d->n] = e;
     d->n++;
 }
 static void d_add(desc *d, uint32_t a) {
     if (!d_in(d, a))
-        d_append(d, a, 1);
+        d_append(d, a, a + 1);
 }
 static void d_remove(desc *d, uint32_t a) {
     for (unsigned i = 0; i < MAXIV; i++)
-        if (i < d->n && a >= d->s[i] && a - d->s[i] < d->l[i]) {
-            uint32_t e = d->s[i] + d->l[i];
-            d->l[i] = a - d->s[i];
-            d_append(d, a + 1, e - (a + 1));
+        if (i < d->n && a >= d->s[i] && a < d->e[i]) {
+            uint32_t e = d->e[i];
+            d->e[i] = a;
+            d_append(d, a + 1, e);
             return;
         }
 }
@@ -97,7 +98,7 @@ static bool r_member(const varintBitmap *vb, uint32_t x) {
     for (unsigned i = 0; i < 2; i++)
         if (i < vb->container.runs.numRuns) {
             uint32_t s = vb->container.runs.runs[2 * i], l = vb->container.runs.runs[2 * i + 1];
-            if (x >= s && x - s < l)
+            if (x >= s && x < s + l)
                 return true;
         }
     return false;
@@ -208,7 +209,7 @@ static void check_state(const varintBitmap *vb, const desc *E, uint16_t x, int w
 /* ghost of the modular range queries */
 static unsigned g_calls;
 static const varintBitmap *g_obj;
-static uint32_t g_next;
+static uint32_t g_first;
 static const desc *g_pre;
 static varintBitmapContainerType g_type;
 static uint32_t g_card;
@@ -225,8 +226,7 @@ static void contract_step(const varintBitmap *vb, uint16_t v) {
         VP_ASSERT("P:mod.object_only_changed_by_callee",
                   vb->type == g_type && vb->cardinality == g_card && (const void *)vb->container.array.values == g_store);
     }
-    VP_ASSERT("P:real.range.each_value_once_in_order", v == g_next);
-    g_next++;
+    VP_ASSERT("P:real.range.each_value_once_in_order", v == (uint16_t)(g_first + g_calls));
     g_calls++;
 }
 bool contract_add_real(varintBitmap *vb, uint16_t v) {
@@ -237,25 +237,12 @@ bool contract_remove_real(varintBitmap *vb, uint16_t v) {
     contract_step(vb, v);
     return d_in(g_pre, v);
 }
-/* r_member for results with up to ARRAY_MAX array entries (only evaluated on the non-modular path) */
-static bool r_member4096(const varintBitmap *vb, uint32_t x) {
-    if (vb->type != VARINT_BITMAP_ARRAY)
-        return r_member(vb, x);
-#ifdef VP_NATIVE
-    for (uint32_t i = 0; i < vb->cardinality && i < VARINT_BITMAP_ARRAY_MAX; i++)
-        if (vb->container.array.values[i] == x)
-            return true;
-    return false;
-#else
-    return vb->cardinality <= MAXIV && r_member(vb, x);
-#endif
-}
 /* members of d inside [a, b) */
 static uint32_t d_overlap(const desc *d, uint32_t a, uint32_t b) {
     uint32_t c = 0;
     for (unsigned i = 0; i < MAXIV; i++)
         if (i < d->n) {
-            uint32_t lo = d->s[i] > a ? d->s[i] : a, hi = d->s[i] + d->l[i] < b ? d->s[i] + d->l[i] : b;
+            uint32_t lo = d->s[i] > a ? d->s[i] : a, hi = d->e[i] < b ? d->e[i] : b;
             if (hi > lo)
                 c += hi - lo;
         }
@@ -289,7 +276,7 @@ void harness(void) {
         if (i)
             VP_ASSUME(in1[i] > in1[i - 1]);
         D.s[i] = in1[i];
-        D.l[i] = 1;
+        D.e[i] = in1[i] + 1;
     }
     D.n = CARD1;
 #if T1 == 0
@@ -320,7 +307,7 @@ void harness(void) {
         r[2 * i] = (uint16_t)s;
         r[2 * i + 1] = (uint16_t)l;
         D.s[i] = s;
-        D.l[i] = l;
+        D.e[i] = e;
         end = s + l;
         c += l;
     }
@@ -378,22 +365,16 @@ void harness(void) {
     varintBitmap *dec = varintBitmapDecode(buf, n);
     VP_ASSERT("P:real.encdec.fresh", dec != NULL && dec != vb);
     check_state(dec, &E, x, OBS);
-#elif OP == 10
-    VP_ASSUME(a >= b || (b - a > VARINT_BITMAP_ARRAY_MAX && d_card(&D) == 0));
-    varintBitmapAddRange(vb, a, b);
-    if (a < b) {
-        E.n = 1;
-        E.s[0] = a;
-        E.l[0] = (uint32_t)b - a;
-    }
-    check_state(vb, &E, x, OBS);
 #elif OP == 12 || OP == 13
-    VP_ASSUME(a < b && b - a <= VARINT_BITMAP_ARRAY_MAX + 4);
 #if OP == 12
-    VP_ASSUME(!(b - a > VARINT_BITMAP_ARRAY_MAX && d_card(&D) == 0)); /* that case: OP 10 */
+    /* short ranges (the loop of Add), or the single-run shortcut: a range longer than ARRAY_MAX on an empty set.
+     * (A range longer than ARRAY_MAX on a non-empty set needs > 4096 loop iterations: covered at the scaled constants.) */
+    VP_ASSUME(b <= a || b - a <= RANGEMAX || (b - a > VARINT_BITMAP_ARRAY_MAX && d_card(&D) == 0));
+#else
+    VP_ASSUME(b <= a || b - a <= RANGEMAX);
 #endif
     g_pre = &D;
-    g_next = a;
+    g_first = a;
 #if OP == 12
     varintBitmapAddRange(vb, a, b);
     bool want = d_in(&D, x) || (x >= a && x < b);
@@ -403,17 +384,31 @@ void harness(void) {
     bool want = d_in(&D, x) && !(x >= a && x < b);
     uint32_t wantcard = d_card(&D) - d_overlap(&D, a, b);
 #endif
+    if (a >= b) {
+        want = d_in(&D, x);
+        wantcard = d_card(&D);
+    }
     if (g_calls) {
         /* by the callee's contract the object now holds the wanted set provided the callee was applied to every value */
-        VP_ASSERT("P:real.range.whole_range", g_obj == vb && g_next == b);
+        VP_ASSERT("P:real.range.whole_range", g_obj == vb && g_first + g_calls == b);
         VP_ASSERT("P:mod.object_only_changed_by_callee",
                   r_wf(vb) && r_member(vb, x) == d_in(&D, x) && vb->cardinality == d_card(&D));
     } else {
-        /* native replay, or a caller that did the work itself: compare the real result.  (r_wf is not used here: it
-         * bounds arrays to MAXIV members, which a correct result may exceed.) */
-        VP_ASSERT("P:real.range.value", r_member4096(vb, x) == want);
+        /* native replay, an empty range, or a caller that did the work itself (the single-run shortcut): compare
+         * the real result */
+        VP_ASSERT("P:real.range.wf", r_wf(vb));
+        VP_ASSERT("P:real.range.value", r_member(vb, x) == want);
         VP_ASSERT("P:real.range.contains", varintBitmapContains(vb, x) == want);
         VP_ASSERT("P:real.range.cardinality", varintBitmapCardinality(vb) == wantcard);
+        VP_ASSERT("P:real.range.is_empty", varintBitmapIsEmpty(vb) == (wantcard == 0));
+        if (OP == 12 && a < b && d_card(&D) == 0 && vb->type == VARINT_BITMAP_RUNS) {
+            /* the run produced by the shortcut: first members through the iterator */
+            varintBitmapIterator it = varintBitmapCreateIterator(vb);
+            for (unsigned k = 0; k < KMAX; k++)
+                if (k < wantcard)
+                    VP_ASSERT("P:real.range.iter_first_members",
+                              varintBitmapIteratorNext(&it) && it.currentValue == (uint32_t)a + k);
+        }
     }
 #else
 #error "OP"
